@@ -36,7 +36,7 @@ def build(P):
                 v1, v2 = TY[tt]
                 s1 = TY[st][1]
                 td = DECL.get(tt, tt)
-                for chan in ["var", "elem", "field", "deref", "byval", "byref", "return", "newvar"]:
+                for chan in ["var", "elem", "field", "deref", "byval", "byref", "return", "newvar", "byref-fn", "byref-expr", "byref-expr-fn", "byref-paren", "byref-paren-fn"]:
                     lines = list(TYPEDEFS) + list(SRC_SETUP)
                     if chan == "var":
                         lines += ["DECLARE t : %s" % td, "t <- %s" % v1] + show("t", tt) + ["t <- %s" % s1] + show("t", tt)
@@ -52,6 +52,15 @@ def build(P):
                     elif chan == "byref":
                         sd = DECL.get(st, st)
                         lines += ["PROCEDURE P(BYREF x : %s)" % td, "x <- %s" % v2, "ENDPROCEDURE", "DECLARE s : %s" % sd, "s <- %s" % TY[st][0]] + show("s", st) + ["CALL P(s)"] + show("s", st)
+                    elif chan == "byref-fn":
+                        sd = DECL.get(st, st)
+                        lines += ["FUNCTION F(BYREF x : %s) RETURNS INTEGER" % td, "x <- %s" % v2, "RETURN 1", "ENDFUNCTION", "DECLARE s : %s" % sd, "s <- %s" % TY[st][0]] + show("s", st) + ["OUTPUT F(s)"] + show("s", st)
+                    elif chan in ("byref-expr", "byref-expr-fn", "byref-paren", "byref-paren-fn"):
+                        # a BYREF parameter given something that is not a variable (a literal / a parenthesised or computed value of the parameter's type)
+                        if st != tt: continue
+                        head, call = (["PROCEDURE P(BYREF x : %s)" % td], "CALL P(%s)") if not chan.endswith("-fn") else (["FUNCTION P(BYREF x : %s) RETURNS INTEGER" % td], "OUTPUT P(%s)")
+                        tail = ["ENDPROCEDURE"] if not chan.endswith("-fn") else ["RETURN 1", "ENDFUNCTION"]
+                        lines += head + ["x <- %s" % v2] + tail + ["DECLARE s : %s" % td, "s <- %s" % v1, "OUTPUT \"before\"", call % "s"] + show("s", tt) + [call % (v1 if "expr" in chan else "(s)"), "OUTPUT \"after\""] + show("s", tt)
                     elif chan == "return":
                         lines += ["FUNCTION F() RETURNS %s" % td, "RETURN %s" % s1, "ENDFUNCTION", "OUTPUT \"before\"", "DECLARE t : %s" % td, "t <- F()"] + show("t", tt)
                     elif chan == "newvar":
@@ -164,7 +173,18 @@ def build(P):
             "DECLARE a, b : ARRAY[1:3] OF INTEGER\nPROCEDURE Q(BYREF e : INTEGER)\nb[1] <- 4\na <- b\ne <- e + 1\nOUTPUT e\nENDPROCEDURE\nCALL Q(a[1])\nOUTPUT a[1], b[1]",
             "DECLARE a : ARRAY[1:3] OF STRING\na[1] <- \"a string long enough to live on the heap, not inline\"\na[2] <- \"another string long enough to live on the heap\"\na[3] <- \"x\"\na <- a\nOUTPUT a[1]\nOUTPUT a[2]\nOUTPUT a[3]",
             "TYPE R\nDECLARE s : STRING\nDECLARE a : ARRAY[1:2] OF STRING\nENDTYPE\nDECLARE r : R\nr.s <- \"a string long enough to live on the heap, not inline\"\nr.a[1] <- \"another string long enough to live on the heap\"\nr <- r\nOUTPUT r.s, r.a[1]\nr.a <- r.a\nOUTPUT r.a[1]\nDECLARE t : ARRAY[1:2] OF R\nt[1] <- r\nt[1] <- t[1]\nOUTPUT t[1].s, t[1].a[1]\nt <- t\nOUTPUT t[1].s, t[1].a[1]\nPROCEDURE P(BYREF x : R, BYREF y : R)\nx <- y\nOUTPUT x.s, x.a[1]\nENDPROCEDURE\nCALL P(r, r)\nCALL P(t[1], t[1])",
-            "DECLARE a : ARRAY[1:3] OF INTEGER\nDECLARE a : ARRAY[1:3] OF INTEGER", "DECLARE a : ARRAY[1:3] OF DATE\nOUTPUT a[1]", "DECLARE a : ARRAY[- 1:1] OF CHAR\nOUTPUT ASC(a[0])",
+            "DECLARE a : ARRAY[1:3] OF INTEGER\nDECLARE a : ARRAY[1:3] OF INTEGER", "DECLARE a : ARRAY[1:3] OF DATE\nOUTPUT a[1]",
+        ]
+        # arrays of records whose fields are (mostly) arrays: every field of every element survives element copies, whole-array copies and BYVAL passing
+        for nsc, nar in [(0, 1), (0, 2), (0, 3), (1, 2), (1, 3), (2, 3), (2, 1), (3, 4)]:
+            fs = ["DECLARE s%d : INTEGER" % k for k in range(nsc)] + ["DECLARE v%d : ARRAY[1:2] OF INTEGER" % k for k in range(nar)]
+            if (nsc + nar) % 2: fs.reverse()
+            setr = ["r.s%d <- %d" % (k, 500 + k) for k in range(nsc)] + ["r.v%d[%d] <- %d" % (k, j, 100 * (k + 1) + j) for k in range(nar) for j in (1, 2)]
+            def dumpr(ref): return ["OUTPUT " + ", \" \", ".join(["%s.s%d" % (ref, k) for k in range(nsc)] + ["%s.v%d[%d]" % (ref, k, j) for k in range(nar) for j in (1, 2)])]
+            shapes.append("\n".join(["TYPE Rr"] + fs + ["ENDTYPE", "DECLARE r : Rr", "DECLARE t, u : ARRAY[1:3] OF Rr"] + setr + ["t[2] <- r", "t[3] <- t[2]", "u <- t", "r.v0[1] <- - 1", "t[2].v%d[2] <- - 2" % (nar - 1)] + dumpr("t[2]") + dumpr("t[3]") + dumpr("u[2]") + dumpr("u[3]") + dumpr("u[1]")
+                                    + ["PROCEDURE Show(BYVAL x : Rr)"] + dumpr("x") + ["ENDPROCEDURE", "CALL Show(u[3])", "FUNCTION Mk() RETURNS Rr", "RETURN t[3]", "ENDFUNCTION", "r <- Mk()"] + dumpr("r")))
+        shapes += [
+            "DECLARE z : ARRAY[1:2] OF INTEGER\nOUTPUT z[1], z[2]", "DECLARE a : ARRAY[- 1:1] OF CHAR\nOUTPUT ASC(a[0])",
             "DECLARE a : ARRAY[1:3] OF BOOLEAN\nOUTPUT a[1], a[3]", "DECLARE a : ARRAY[1:3] OF REAL\nOUTPUT a[2]", "DECLARE a : ARRAY[1:3] OF STRING\nOUTPUT \"[\", a[2], \"]\"",
             "i <- 2\nDECLARE a : ARRAY[i:i*2] OF INTEGER\na[i + 1] <- 3\nOUTPUT a[3], a[4]\nOUTPUT a[5]",
             # dynamic indices evaluated repeatedly by the same source expression
@@ -249,7 +269,7 @@ def build(P):
                 return ["%s%s <- %s" % (v, p, VAL[t](base + k)) for k, (p, t) in enumerate(leaves)]
             def dump(v, tag):
                 return ["OUTPUT \"%s%s=\", %s%s" % (tag, p, v, p) for p, t in leaves]
-            for chan in ["assign", "byval", "return", "array", "field", "newvar"]:
+            for chan in ["assign", "byval", "return", "array", "field", "newvar", "dynidx", "dynfield"]:
                 L = list(tlines) + ["DECLARE a : %s" % top, "DECLARE b : %s" % top] + dump("a", "fresh ") + fill("a", 0)
                 if chan == "assign":
                     L += ["b <- a"]
@@ -263,6 +283,11 @@ def build(P):
                     L += ["TYPE Wrap", "DECLARE inner : %s" % top, "DECLARE tag : INTEGER", "ENDTYPE", "DECLARE w, w2 : Wrap", "w.inner <- a", "w2 <- w", "b <- w2.inner"] + fill("w.inner", 60)
                 elif chan == "newvar":
                     L += ["c <- a"] + fill("a", 30) + dump("c", "c ") + ["b <- c"]
+                elif chan == "dynidx":
+                    # a chain of element copies through indices computed at run time: the same source text addresses a different element in each pass
+                    L += ["DECLARE arr : ARRAY[1:3] OF %s" % top, "arr[1] <- a", "FOR i <- 1 TO 2", "arr[i + 1] <- arr[i]"] + fill("arr[i + 1]", 80) + ["NEXT i", "FOR j <- 1 TO 3"] + dump("arr[j]", "dyn ") + ["NEXT j", "b <- arr[1]"]
+                elif chan == "dynfield":
+                    L += ["TYPE Wrap", "DECLARE items : ARRAY[1:3] OF %s" % top, "DECLARE tag : INTEGER", "ENDTYPE", "DECLARE w : Wrap", "w.items[1] <- a", "k <- 3", "WHILE k >= 2 DO", "w.items[k] <- w.items[1]"] + fill("w.items[k]", 90) + ["k <- k - 1", "ENDWHILE", "FOR j <- 1 TO 3"] + dump("w.items[j]", "dynf ") + ["NEXT j", "b <- w.items[1]"]
                 L += dump("b", "copied ") + fill("a", 20) + dump("b", "after-src-change ") + fill("b", 40) + dump("a", "after-dst-change ")
                 progs.append(Case(id="C07-%d-%s" % (i, chan), prog=("\n".join(L) + "\n").encode(), meta=dict(units=["%d/%s" % (i, chan)], features=["rec_copy"])))
         for ch in chunks(progs, 400):
